@@ -247,37 +247,36 @@ def inlineProp (fuel : Nat) (ts : List Tok) : Option (Except Err (List Ev × Lis
   | o :: k :: c1 :: c2 :: rest =>
     if o.name == "'['" && isIdTok k && !isHttps k && c1.name == "COLON" && c2.name == "COLON" then
       let inner := rest.takeWhile (fun t => t.name != "']'" && t.name != "NL")
+      -- `SPACE? id_group (SPACE id_group)*`: every word of the value starts with an id token
+      let body := match inner with | s :: r => if s.name == "SPACE" then r else inner | [] => []
+      let wordsOk : Bool := !body.isEmpty && (body.head?.map isIdTok).getD false &&
+        (body.zip (body.drop 1)).all (fun (a, b) => a.name != "SPACE" || isIdTok b) &&
+        (body.getLast?.map (·.name != "SPACE")).getD false &&
+        body.all (fun t => t.name == "SPACE" || isIdTok t || isAnySym t)
       match rest.drop inner.length with
       | c :: after =>
-        if c.name == "']'" then
-          -- the listener: words = getText().split(" ")
-          let txt := textOf (o :: k :: c1 :: c2 :: inner ++ [c])
-          let words := splitOn ' ' txt
+        if c.name == "']'" && wordsOk then
+          -- the listener: `key, value = ctx.getText()[1:-1].split("::", maxsplit=1)`; value stripped
+          let txt := textOf (k :: c1 :: c2 :: inner)
           let idEvs := (inner.filter isIdTok).map (fun t => Ev.id t.text)
-          match words with
-          | [w] =>
-            -- `key, value = words[0][1:-1].split("::")`
-            match splitDouble ((w.drop 1).dropLast) with
-            | [a, b] => some (.ok (.id k.text :: .prop a b false :: idEvs, after))
-            | _ => some (.error (.crash "ValueError: inline prop split"))
-          | w :: ws =>
-            let key := (w.drop 1).take (w.length - 3)
-            let value := (joinWith [' '] ws).dropLast
-            some (.ok (.id k.text :: .prop key value false :: idEvs, after))
-          | [] => none
+          match splitFirstDouble txt with
+          | some (a, b) => some (.ok (.id k.text :: .prop a (strip b) false :: idEvs, after))
+          | none => some (.error (.crash "ValueError: inline prop split"))
         else none
       | [] => none
     else none
   | _ => none
 where
-  /-- Python `s.split("::")` -/
-  splitDouble (s : Str) : List Str :=
-    let rec go : Nat → Str → Str → List Str
-      | 0, acc, _ => [acc.reverse]
-      | _ + 1, acc, [] => [acc.reverse]
-      | f + 1, acc, ':' :: ':' :: r => acc.reverse :: go f [] r
-      | f + 1, acc, c :: r => go f (c :: acc) r
-    go (s.length + 1) [] s
+  /-- Python `s.split("::", maxsplit=1)` when `::` occurs -/
+  splitFirstDouble (s : Str) : Option (Str × Str) :=
+    let rec go : Str → Str → Option (Str × Str)
+      | _, [] => none
+      | acc, ':' :: ':' :: r => some (acc.reverse, r)
+      | acc, c :: r => go (c :: acc) r
+    go [] s
+  strip (s : Str) : Str :=
+    let ws (c : Char) : Bool := c == ' ' || c == '\t' || c == '\n' || c == '\r' || c == '\x0b' || c == '\x0c'
+    ((s.dropWhile ws).reverse.dropWhile ws).reverse
 
 /-- one atom after a SPACE: `tag_sym | word_group` -/
 def atom (fuel : Nat) (ts : List Tok) : Except Err (List Ev × List Tok) :=
@@ -399,7 +398,8 @@ def lstrip (s : Str) : Str := s.dropWhile isWs
 
 def hasInfix (pat s : Str) : Bool := (List.range (s.length + 1)).any (fun i => pat.isPrefixOf (s.drop i))
 
-def isShortDate (s : Str) : Bool := s.length == 6 && s.all isDigit
+/-- `is_short_date_spec`: six digits that form a real date (`20YYMMDD`) -/
+def isShortDate (s : Str) : Bool := s.length == 6 && s.all isDigit && (Date.parseShort s).isSome
 def isZid (s : Str) : Bool := (s.length == 9 || s.length == 10) && isShortDate (s.take 6) && s.getD 6 ' ' == '#'
 
 /-- `"::" in (b.split() or [""])[0]` for the pieces after the first -/
@@ -488,7 +488,7 @@ def addEv (quotedSkip : Bool) (sc : Scope) (takeTags takeProps takeDate : Bool) 
     if takeDate then
       match Date.parseLong txt with
       | some d => pure { sc with date := some d }
-      | none => .error (.crash "ValueError: strptime")
+      | none => pure sc          -- an impossible date (2024-02-30) is just a word
     else pure sc
   | .id _ => pure sc
   | .word => pure sc
@@ -531,7 +531,7 @@ def identity (evs : List Ev) : Except Err (Option Date × Option Str × Option D
       if n == 1 && w == 1 && d.isNone then
         match Date.parseLong txt with
         | some dt => go n w m z (some dt) rest
-        | none => .error (.crash "ValueError: strptime")
+        | none => go n w m z d rest
       else go n w m z d rest
     | n, w, m, z, d, _ :: rest => go n w m z d rest
   go 0 0 none none none evs
